@@ -93,6 +93,16 @@ def install():
     xa.Thread = FakeThread
     xtok.threading = _ThreadingShim()
     xtok.ipcom = lambda: _FakeIPCom()
+    real_create = xtok.TokenFile.create
+
+    def create(dependency):
+        # another process can only run its own acquisition here if the inter-process lock
+        # is not held at this instant (it is, in the unchanged code)
+        if ENG is not None:
+            ENG.on_token_file_create(dependency)
+        return real_create(dependency)
+
+    xtok.TokenFile.create = staticmethod(create)
     for cls in sim.TASK_CLASSES:
         t = cls.__getxpmtype__()
         t.__initialize__()
@@ -174,6 +184,28 @@ def _define_vjob():
 # ----------------------------------------------------------------------------------
 
 
+class LockProxy:
+    """Wraps the inter-process lock of a token to know, from the harness, whether our process
+    holds it (POSIX locks do not exclude inside one process, so the harness cannot find out
+    by trying)"""
+
+    def __init__(self, real):
+        self.real = real
+        self.held = False
+
+    def __enter__(self):
+        r = self.real.__enter__()
+        self.held = True
+        return r
+
+    def __exit__(self, *a):
+        self.held = False
+        return self.real.__exit__(*a)
+
+    def __getattr__(self, name):
+        return getattr(self.real, name)
+
+
 class Event:
     __slots__ = ("seq", "kind", "label", "fn", "meta", "enabled")
 
@@ -226,6 +258,8 @@ class Engine:
         self.job_by_obj = {}
         self.resubmitted = False
         self.stale_fs = []
+        self.racers = []  # (f, ti, w): foreign acquisitions waiting for a window inside ours
+        self.output_extra = {}  # upstream index -> upstream indices attached to its output by a pre-task
 
     # --- bookkeeping called from the substitutes (loop thread or harness thread)
     def add_event(self, kind, label, fn, enabled=None, **meta):
@@ -364,6 +398,23 @@ class Engine:
                 if not seen or seen[-1][1] != o.state:
                     seen.append((self.step_no, o.state))
 
+    def on_token_file_create(self, dependency):
+        """Called (loop thread) right before our process writes a token file"""
+        token = dependency._token
+        for ti, t in enumerate(self.tokens):
+            if t is token:
+                break
+        else:
+            return
+        lock = getattr(token, "ipc_lock", None)
+        if isinstance(lock, LockProxy) and not lock.held:
+            for r in [r for r in self.racers if r[1] == ti]:
+                self.racers.remove(r)
+                self.notes.add("foreign-acquire-slipped-in")
+                _foreign_acquire(self, r[0], ti, r[2], False, False)
+        elif self.racers:
+            self.notes.add("racer-excluded-by-lock")
+
     def uri_dead(self, uri):
         """True once the job process behind a token file's uri is gone"""
         for f in self.foreign_jobs.values():
@@ -419,8 +470,10 @@ def run_case(case, scratch: Path) -> History:
         shutil.rmtree(scratch, ignore_errors=True)
     scratch.mkdir(parents=True)
     try:
-        for r in range(case.get("runs", 1)):
-            eng = _run_one(case, scratch, r, done)
+        prev = None
+        for r in range(2 if case.get("stage2") else case.get("runs", 1)):
+            eng = _run_one(case, scratch, r, done, prev)
+            prev = eng
             H.violations.extend(eng.violations)
             H.notes |= eng.notes
             H.log.append(eng.log)
@@ -433,7 +486,7 @@ def run_case(case, scratch: Path) -> History:
     return H
 
 
-def _run_one(case, scratch, run_index, done_before) -> Engine:
+def _run_one(case, scratch, run_index, done_before, prev=None) -> Engine:
     global ENG
     from experimaestro import experiment
     from experimaestro.scheduler.base import JobState, FailedExperiment
@@ -454,13 +507,29 @@ def _run_one(case, scratch, run_index, done_before) -> Engine:
         for ti, tok in enumerate(case["tokens"]):
             if tok["kind"] == "file":
                 t = CounterToken(f"t{ti}", eng.tokdir(ti), tok["total"])
+                t.ipc_lock = LockProxy(t.ipc_lock)
             else:
                 t = ProcessCounterToken(tok["total"])
             eng.tokens.append(t)
         _snapshot_fs(eng, init=True)
 
         plan = [list(op) for op in case["plan"]]
-        if run_index > 0:
+        stage2 = set(case.get("stage2") or [])
+        if stage2:
+            # two experiment blocks in one process: the jobs of the second stage use the
+            # outputs of first-stage tasks (whose jobs belong to the first experiment)
+            if run_index == 0:
+                plan = [op for op in plan if not (op[0] in ("submit", "dup", "resubmit") and op[1] in stage2)]
+            else:
+                plan = [op for op in plan if op[0] == "wait" or (op[0] == "submit" and op[1] in stage2)]
+                for j, m in prev.jobs.items():
+                    if j not in stage2:
+                        eng.jobs[j] = m  # same task objects, outputs and (final) jobs
+                        for o in m.objs:
+                            eng.job_by_obj[id(o)] = m
+                eng.stage1 = {j for j in prev.jobs if j not in stage2}
+                eng.notes.add("second-stage")
+        elif run_index > 0:
             plan = [op for op in plan if op[0] in ("submit", "dup", "wait")]
 
         def submit(j, dup):
@@ -470,6 +539,7 @@ def _run_one(case, scratch, run_index, done_before) -> Engine:
             kw = dict(idx=j)
             lst, dct, deep, pre, init, explicit = [], {}, {}, [], [], []
             ups = []
+            via_output = []
             for n_up, (off, kind) in enumerate(spec["ups"]):
                 if j == 0:
                     break
@@ -478,6 +548,8 @@ def _run_one(case, scratch, run_index, done_before) -> Engine:
                     continue  # upstream not submitted (cannot happen with index order)
                 out = eng.jobs[u].output
                 ups.append(u)
+                if kind != "explicit":
+                    via_output.append(u)
                 if kind == "direct" and "direct" not in kw:
                     kw["direct"] = out
                 elif kind == "nested" and "nested" not in kw:
@@ -492,6 +564,17 @@ def _run_one(case, scratch, run_index, done_before) -> Engine:
                     pre.append(sim.SimLW(k=n_up, cfg=out))
                 elif kind == "init":
                     init.append(sim.SimLW(k=n_up, cfg=out))
+                elif kind == "preout":
+                    # a pre-task attached to the output of upstream u *after* u was submitted; the
+                    # pre-task holds the output of another upstream task u2. Every consumer of that
+                    # output (this one and later ones) then also depends on u2.
+                    u2 = u - 1
+                    if u2 >= 0 and eng.jobs[u2].output is not None and not out.__xpm__._sealed:
+                        if u2 not in eng.output_extra.get(u, ()):
+                            out.add_pretasks(sim.SimLW(k=100 + u2, cfg=eng.jobs[u2].output))
+                            eng.output_extra.setdefault(u, set()).add(u2)
+                            eng.notes.add("pre-task-on-output")
+                    lst.append(out)
                 elif kind == "explicit":
                     explicit.append(u)
                 else:
@@ -515,6 +598,9 @@ def _run_one(case, scratch, run_index, done_before) -> Engine:
             prev_failed = bool(m.objs) and m.objs[-1].state == JobState.ERROR
             out = t.submit(init_tasks=init) if init else t.submit()
             job = t.__xpm__.job
+            # whoever consumes the output of u also depends on what was attached to that output
+            for u in via_output:
+                ups.extend(eng.output_extra.get(u, ()))
             if first:
                 m.task, m.output, m.ups = t, out, sorted(set(ups))
                 m.objs.append(job)
@@ -524,7 +610,7 @@ def _run_one(case, scratch, run_index, done_before) -> Engine:
                 missing = sorted(set(m.ups) - set(gotidx))
                 if missing:
                     # (a superset is fine: dependencies of an upstream's pre-tasks are added too)
-                    kinds = sorted({k for (off, k) in spec["ups"] if j and (j - 1 - (off % j)) in missing})
+                    kinds = sorted({k for (off, k) in spec["ups"] if j and (j - 1 - (off % j)) in missing}) or ["pre-task-attached-to-an-upstream-output"]
                     eng.viol("C04", "dependencies-missed:" + ",".join(kinds), f"job {j} depends on jobs {m.ups} (embeddings {spec['ups']}) but job.dependencies names {gotidx}")
             elif prev_failed:
                 # re-submission of a failed job: a new job object runs
@@ -570,6 +656,9 @@ def _run_one(case, scratch, run_index, done_before) -> Engine:
                 _foreign_acquire(eng, *op[1:])
             elif op[0] == "fopen":
                 _foreign_open(eng, *op[1:])
+            elif op[0] == "frace":
+                if eng.case["tokens"][op[2]]["kind"] == "file":
+                    eng.racers.append((op[1], op[2], op[3]))
             else:
                 raise HarnessError(f"unknown plan op {op}")
 
@@ -835,7 +924,7 @@ def _final_checks(eng):
     stuck_cause = eng.observer_dead or (getattr(eng, "dead_threads", None) or [None])[0]
     any_error = False
     for m in eng.jobs.values():
-        if not m.objs:
+        if not m.objs or m.idx in getattr(eng, "stage1", ()):
             continue
         j = m.idx
         job = m.objs[-1]
@@ -904,6 +993,8 @@ def _final_checks(eng):
         if job.state == JobState.ERROR:
             any_error = True
         # C07
+        if m.predone and job.state.finished() and job.state != JobState.DONE:
+            eng.viol("C07", "succeeded-earlier-but-ends-error", f"job {j} had already succeeded in an earlier run (success marker) but ends {job.state.name} (history {hist}, upstream {m.ups}, failed ancestors any path {sorted(eng.failed_ancestors_any_path(j))})")
         if bad and not m.predone:
             if m.launches:
                 pass  # reported at launch
